@@ -62,7 +62,7 @@ def nanOK (m : CMq) (r : Rates) : Bool :=
 
 /-- definitions: each observed rate is its defining quotient -/
 def defOK (eps : Rat) (num den : Rat) : Option Rat → Bool
-  | some a => den != 0 && near eps (a * den) num
+  | some a => den != 0 && near (eps * (1 + absQ den)) (a * den) num  -- relative to the population
   | none => den == 0
 
 def definitionsOK (eps : Rat) (m : CMq) (r : Rates) : Bool :=
